@@ -858,9 +858,18 @@ def sweep_argv(base, inc, steps, style=0):
 
 
 def base_f(argv):
+    """Frequency of a command line and where it is written: index of the
+    value, or (index, 'eq') for the --frequency=VALUE spelling."""
     for i, a in enumerate(argv):
         if a in ('-f', '--frequency') and i + 1 < len(argv):
             return float(argv[i + 1]), i + 1
+        if a.startswith('--frequency='):
+            return float(a.split('=', 1)[1]), (i, 'eq')
+        if a.startswith('-f') and len(a) > 2 and a[2] not in '-abcdefghijklmnopqrstuvwxyz':
+            try:
+                return float(a[2:]), (i, 'short')
+            except ValueError:
+                pass
     return 7.0, None
 
 
@@ -869,6 +878,8 @@ def with_f(argv, f, strip_out=True):
     f0, i = base_f(a)
     if i is None:
         a = ['-f', repr(f)] + a
+    elif isinstance(i, tuple):
+        a[i[0]] = ('--frequency=' if i[1] == 'eq' else '-f') + repr(f)
     else:
         a[i] = repr(f)
     if strip_out:
